@@ -243,6 +243,23 @@ def run_misuse(ses):
                 m.maxinf(x[0], F)
         tests.append(('%s second (worst-case) objective' % kind, t_obj_twice2))
 
+        for zero in (0, 0.0, np.float64(0), 3.5):
+            for second in ('min', 'max', 'wc'):
+                def t_obj_after_const(kind=kind, zero=zero, second=second):
+                    m, x, z = mk(kind)
+                    m.min(zero)
+                    if second == 'min':
+                        m.min(x.sum())
+                    elif second == 'max':
+                        m.max(x.sum())
+                    elif kind == 'ro':
+                        m.minmax((x * z).sum(), z >= 0, z <= 1)
+                    else:
+                        F = m.ambiguity()
+                        F.suppset(z >= 0, z <= 1)
+                        m.minsup((x * z).sum(), F)
+                tests.append(('%s second objective (%s) after the constant objective %r' % (kind, second, zero), t_obj_after_const))
+
         def t_obj_vector(kind=kind):
             m, x, z = mk(kind)
             m.min(x * 1.0)
